@@ -113,6 +113,12 @@ def finishStep (p : People) : Except Err People := do
   let p' ← removeDead p
   pure { p' with ti := p'.ti + 1 }
 
+/-- `People.update_post()` with ageing on: `self.age[self.alive.uids] += dt` — read the ages of the living active agents,
+    add `dt`, write them back (dead and removed agents keep the age they died with) -/
+def agePost (au : List Nat) (alive age : Arr) (dt : Rat) : Except Err Arr :=
+  let us := trueUids au alive
+  setItem codeVariant au age (.uids us) (.list (us.map (fun u => arithVal .add (age.cell u) (.num dt))))
+
 /-- registration of a further state at run time: `state.link_people(people); state.init_vals()`, i.e.
     `self.grow(self.people.uid)` where the IndexArr stands for its active values -/
 def registerState (p : People) (a : Arr) : Except Err People := do
@@ -146,5 +152,56 @@ def run (p : People) (ops : List Op) : People := ops.foldl step p
 
 /-- number of living agents as `update_results` counts them -/
 def aliveCount (p : People) : Nat := count p.auids p.alive
+
+/-! ### Specification-level definitions used by the theorems (Props/C10.lean) -/
+
+/-- The bookkeeping invariant of a population with `n = uid.len_used` identifiers. -/
+structure Inv (p : People) : Prop where
+  uid : WF p.n p.uid
+  slot : WF p.n p.slot
+  parent : WF p.n p.parent
+  alive : WF p.n p.alive
+  tiDead : WF p.n p.tiDead
+  states : ∀ a ∈ p.states, WF p.n a
+  statesDefault : ∀ a ∈ p.states, ∀ us, (defaultVals a us).length = us.length
+  dense : ∀ u, u < p.n → p.uid.cell u = .num (u : Rat)
+  active : ∀ u ∈ p.auids, u < p.n
+  nodup : p.auids.Nodup
+  aliveKind : p.alive.kind = .bool ∧ p.alive.default = .const (.bool true)
+  tiDeadDefault : p.tiDead.default = .unset
+  tiDeadKind : p.tiDead.kind = .float
+  aliveBool : ∀ u, u < p.n → ∃ b, p.alive.cell u = .bool b
+  removedDead : ∀ u, u < p.n → u ∉ p.auids → p.alive.cell u = .bool false
+
+/-- operations the code accepts: explicit slots come one per new agent; death requests name created agents -/
+def OpOk (p : People) : Op → Prop
+  | .grow k slots => ∀ s, slots = some s → s.length = k
+  | .requestDeath us => ∀ u ∈ us, u < p.n
+  | _ => True
+
+/-- the population before anybody exists: every array freshly constructed (`extra` = all further registered states) -/
+def emptyPeople (extra : List Arr) : People :=
+  { uid := fresh .index (.num (-1)) .unset, slot := fresh .index (.num (-1)) .unset, parent := fresh .index (.num (-1)) .unset,
+    auids := [], alive := fresh .bool (.bool false) (.const (.bool true)), tiDead := fresh .float .nan .unset,
+    states := extra, ti := 0, nAlive := [], newDeaths := [] }
+
+/-- a history the code accepts (stated along the run) -/
+def ValidRun : People → List Op → Prop
+  | _, [] => True
+  | p, op :: ops => OpOk p op ∧ ValidRun (step p op) ops
+
+/-- the number of agents `step_die` newly kills -/
+def diedNow (p : People) : Nat := ((deathUids p).filter (fun u => (p.alive.cell u).truthy)).length
+
+/-- what `update_results` records as `new_deaths[ti]` -/
+def recordedDeaths (p : People) : Nat := count p.auids (cmpScalar p.auids p.tiDead .eq (tiVal p.ti))
+
+/-- the decidable hypothesis that excludes the defect: no active agent carries a death stamp from an *earlier* step
+    (every request was made before the death resolution of its own step, so its agent died and was removed then) -/
+def NoStaleStamp (p : People) : Bool :=
+  p.auids.all (fun u => !(cmpVal .le (p.tiDead.cell u) (tiVal p.ti)).truthy || (cmpVal .eq (p.tiDead.cell u) (tiVal p.ti)).truthy)
+
+def AllActiveAlive (p : People) : Bool := p.auids.all (fun u => (p.alive.cell u).truthy)
+
 
 end StarsimModel.People
